@@ -15,11 +15,11 @@ def build(tier, seed):
                    (3, 1, 3), (3, 2, 4), (3, 2, 5), (3, 2, 8), (65534, 1, 2), (65535, 0, 0), (65535, 3, 8), (4, 3, 8)]
     for w, j, flen in shapes:
         I.append(snd("c08_snd_w%d_j%d_f%d" % (w, j, flen), w, 2, j, flen, oracle=so))
+    # a time-out retransmission, then a duplicate / stale ACK right after it: the timer restarts with every transmission
+    for w, j, flen, rel in ([(1, 0, 3, -1), (3, 2, 6, -2)] if tier == "quick" else [(1, 0, 3, -1), (2, 1, 4, -1), (3, 2, 6, -2), (65535, 1, 4, -1)]):
+        I.append(snd("c08_timeout_then_stale_w%d_j%d_f%d_r%d" % (w, j, flen, -rel), w, 2, j, flen, oracle=so, tmo=5, b0=(7, 7),
+                     events=[(K_TIMEOUT, None, 0, 6), (K_ACK, rel, 0, 0)]))
     # ACK-only events with two events (second event sees the state after a duplicate / partial ACK)
-    if tier == "thorough":
-        for w, j, flen in [(2, 0, 4), (3, 1, 6), (65535, 0, 4)]:
-            I.append(snd("c08_snd2_w%d_j%d_f%d" % (w, j, flen), w, 2, j, flen, k=2, kinds=K_ACK | K_TIMEOUT,
-                         oracle=so, timeout=2400, mem_kb=14 * 1024 * 1024))
     # receiver: ACK cadence from every injected state (j buffered blocks), one arrival
     rshapes = [(1, 0, 0, 2), (1, 0, 2, 1), (2, 0, 2, 2), (2, 1, 0, 2), (2, 1, 2, 1), (3, 2, 2, 2), (3, 1, 0, 0), (3, 0, 4, 2)]
     if tier == "thorough":
